@@ -13,6 +13,13 @@
 // mismatching ones), randomise_subset_order, inter-iteration filter (interval 1 or 2) and post filter (SeparableConvolutionImageFilter,
 // smoothing or sharpening 3-tap kernels in x and y).
 //
+// Round 4: the objective function restricted to fewer segments / TOF bins than the data have (set_max_segment_num_to_process /
+// keyword `maximum absolute segment number to process`, set_max_timing_pos_num_to_process; also changed between the runs of a
+// history; ranges larger than the data's are refused); kappa images that are 0 in the voxels no bin of the objective function sees
+// (and in some others), prior weights that are all 0 (D exactly 0 before it is made positive, with a prior present); LogcoshPrior
+// (the library's other PriorWithParabolicSurrogate) with kappa / user weights: oracle (gradient, curvature, formula, bounds,
+// finiteness) + `step` correspondence with its gradient and curvature as data.
+//
 // What is observed (no private member is touched):
 //  * the explicit system matrix P (ProjMatrixByBin::get_proj_matrix_elems_for_one_bin for every bin and TOF bin, from a matrix object
 //    of the harness' own with the same switches), the subset of every view/segment (detail::find_basic_vs_nums_in_subset + related
@@ -28,8 +35,9 @@
 //
 // Operations (ops file) and answers (impl file), one line each:
 //   cfg …, weights …, kappa …                                 -> ok
-//   row <viewgram> <subset> <y> <a> <n> <zeroed> <len> (j P_bj)*   -> ok
-//   srow <subset> <n> <zeroed> <len> (j P_bj)*               -> ok   (non-TOF sensitivity rows)
+//   row <viewgram> <subset> <segment> <TOF bin> <y> <a> <n> <zeroed> <len> (j P_bj)*   -> ok
+//         (EVERY bin of the data; the model leaves out the bins outside the segment / TOF range of the cfg line)
+//   srow <subset> <segment> <n> <zeroed> <len> (j P_bj)*     -> ok   (non-TOF sensitivity rows)
 //   sens0                                                     -> 0/1 per voxel: sensitivity == 0 (non-identifiable)
 //   setup <start> <numsubiter> <ep> | image                   -> ok | image after set_up | D0        (or `err`)
 //   setupf <start> <numsubiter> <ep> | image | characteristics of the image | of the file or `missing` | file content
@@ -46,7 +54,8 @@
 //   pardefaults                                               -> enforce_initial_positivity, upper bound, alpha, gamma as a parameter file
 //                                                                that does not mention them leaves them (the model then uses its defaults)
 //   endrun                                                    -> number of update_estimate calls of the run
-// Property oracle (<impl>.oracle): bounds (after update_estimate; after bound preserving filters), D0 >= 0, equal to -H(1) and to the
+// Property oracle (<impl>.oracle): bounds (after update_estimate; after bound preserving filters; all tests NaN-aware), every iterate /
+// gradient / curvature finite, a voxel with gradient component 0 keeps its (clamped) value (D strictly positive, prior or no prior), D0 >= 0, equal to -H(1) and to the
 // sum over the bins of the objective function, gradient equal to its definition with normalisation / TOF / zeroed end planes, ascent
 // direction (D > 0), relaxation recovered from the update and compared with alpha/(1+gamma n), n the full-iteration number; randomised
 // order: a permutation per full iteration; resume from every saved iterate with a fresh object (recomputed denominator, denominator
@@ -73,6 +82,7 @@
 #include "stir/recon_buildblock/QuadraticPrior.h"
 #include "stir/recon_buildblock/PriorWithParabolicSurrogate.h"
 #include "stir/recon_buildblock/RelativeDifferencePrior.h"
+#include "stir/recon_buildblock/LogcoshPrior.h"
 #include "stir/recon_buildblock/find_basic_vs_nums_in_subsets.h"
 #include "stir/DataSymmetriesForViewSegmentNumbers.h"
 #include "stir/ProjDataInMemory.h"
@@ -172,6 +182,25 @@ struct RecPrior : public QuadraticPrior<float>
             *ci = *ci * u;
           }
       }
+    if (g_cur)
+      {
+        g_cur->have_c = true;
+        g_cur->c_calls++;
+        g_cur->cx = flat(x);
+        g_cur->c = flat(c);
+      }
+  }
+};
+
+// LogcoshPrior (the other PriorWithParabolicSurrogate of the library; declares its curvature independent of the image), recording
+struct RecLogcosh : public LogcoshPrior<float>
+{
+  RecLogcosh(bool only_2D, float beta, float scalar)
+      : LogcoshPrior<float>(only_2D, beta, scalar)
+  {}
+  void parabolic_surrogate_curvature(DiscretisedDensity<3, float>& c, const DiscretisedDensity<3, float>& x) override
+  {
+    LogcoshPrior<float>::parabolic_surrogate_curvature(c, x);
     if (g_cur)
       {
         g_cur->have_c = true;
@@ -335,11 +364,17 @@ struct Case
   float alpha = 1.F, gamma = 0.1F;
   double ub = std::numeric_limits<float>::max();
   int ep = 0;
-  int prior = 0; // 0 none, 1 quadratic, 2 quadratic declared+made image dependent, 3 not parabolic (error)
+  int prior = 0; // 0 none, 1 quadratic, 2 quadratic declared+made image dependent, 3 not parabolic (error), 4 log-cosh
   float beta = 0.F;
+  float lc_scalar = 1.F; // `scalar` of the log-cosh prior
   bool kappa = false, additive = false;
+  // kappa image: 0 positive everywhere; 1 zero in the voxels no bin of the objective function sees (what real kappa images look
+  // like outside the FOV); 2 additionally zero in some voxels that are seen
+  int kappa_kind = 0;
+  // `maximum absolute segment number to process` / max_timing_pos_num_to_process (-1: all segments / TOF bins of the data)
+  int maxseg = -1, maxtof = -1;
   bool denom_ones = false; // `precomputed denominator := 1`
-  int weights_kind = 0; // 0 default 3D, 1 default 2D (only_2D), 2 custom random 3x3x3, 3 custom 1x3x3
+  int weights_kind = 0; // 0 default 3D, 1 default 2D (only_2D), 2 custom random 3x3x3, 3 custom 1x3x3, 4 custom 3x3x3 all zero
   // --- objective function configuration
   bool norm = false;        // BinNormalisationFromProjData with random factors (non-TOF normalisation data)
   int tofbins = 0;          // 0: non-TOF scanner; otherwise max number of TOF bins of the scanner
@@ -373,6 +408,110 @@ struct Built
   V init;
   mutable std::string file_prefix; // data written to disk (parameter-file runs)
 };
+
+// the segment / TOF range of the objective function
+static int
+eff_maxseg(const Case& c, const ProjDataInfo& pdi)
+{
+  return c.maxseg < 0 ? pdi.get_max_segment_num() : c.maxseg;
+}
+static int
+eff_maxtof(const Case& c, const ProjDataInfo& pdi)
+{
+  return c.maxtof < 0 ? pdi.get_max_tof_pos_num() : c.maxtof;
+}
+static bool
+processed(const Case& c, const ProjDataInfo& pdi, int seg, int tof)
+{
+  return std::abs(seg) <= eff_maxseg(c, pdi) && std::abs(tof) <= eff_maxtof(c, pdi);
+}
+
+// which voxels are seen by at least one bin of the objective function (segment / TOF range to process, not in a zeroed end plane),
+// from a matrix object of the harness' own with the case's switches
+static std::vector<char>
+seen_voxels(const Case& c, const Built& b)
+{
+  ProjMatrixByBinUsingRayTracing pm;
+  pm.set_restrict_to_cylindrical_FOV(c.restrict_fov);
+  pm.set_do_symmetry_90degrees_min_phi(c.sym90);
+  pm.set_do_symmetry_180degrees_min_phi(c.sym180);
+  pm.set_do_symmetry_swap_segment(c.symswapseg);
+  pm.set_do_symmetry_swap_s(c.symswaps);
+  pm.set_do_symmetry_shift_z(c.symz);
+  pm.set_up(b.pdi, b.img);
+  const int minz = b.img->get_min_index();
+  const int maxz = b.img->get_max_index();
+  const int miny = (*b.img)[minz].get_min_index();
+  const int minx = (*b.img)[minz][miny].get_min_index();
+  std::vector<char> seen(static_cast<std::size_t>(maxz - minz + 1) * c.nxy * c.nxy, 0);
+  for (int s = b.pdi->get_min_segment_num(); s <= b.pdi->get_max_segment_num(); ++s)
+    for (int tof = b.pdi->get_min_tof_pos_num(); tof <= b.pdi->get_max_tof_pos_num(); ++tof)
+      {
+        if (!processed(c, *b.pdi, s, tof))
+          continue;
+        for (int v = b.pdi->get_min_view_num(); v <= b.pdi->get_max_view_num(); ++v)
+          for (int ax = b.pdi->get_min_axial_pos_num(s); ax <= b.pdi->get_max_axial_pos_num(s); ++ax)
+            {
+              if (c.zero_ends && s == 0 && (ax == b.pdi->get_min_axial_pos_num(0) || ax == b.pdi->get_max_axial_pos_num(0)))
+                continue;
+              for (int tp = b.pdi->get_min_tangential_pos_num(); tp <= b.pdi->get_max_tangential_pos_num(); ++tp)
+                {
+                  ProjMatrixElemsForOneBin row;
+                  pm.get_proj_matrix_elems_for_one_bin(row, Bin(s, v, ax, tp, tof));
+                  for (auto el = row.begin(); el != row.end(); ++el)
+                    if (el->coord1() >= minz && el->coord1() <= maxz && el->get_value() != 0.F)
+                      seen[((el->coord1() - minz) * c.nxy + (el->coord2() - miny)) * c.nxy + (el->coord3() - minx)] = 1;
+                }
+            }
+      }
+  return seen;
+}
+
+static long n_kappa_zero_unseen = 0;
+
+// the kappa image of a case: positive multiples of 1/8; kappa_kind >= 1: exactly 0 where the objective function sees nothing
+// (so that data curvature AND penalty curvature vanish there: D = 0 before it is made positive), kind 2: and in some other voxels
+static void
+make_kappa(const Case& c, Built& b, vh::Rng& rng)
+{
+  b.kappa.reset(b.img->get_empty_copy());
+  for (auto it = b.kappa->begin_all(); it != b.kappa->end_all(); ++it)
+    *it = static_cast<float>(rng.range(2, 24)) / 8.F;
+  if (c.kappa_kind >= 1)
+    {
+      const std::vector<char> seen = seen_voxels(c, b);
+      std::size_t j = 0;
+      for (auto it = b.kappa->begin_all(); it != b.kappa->end_all(); ++it, ++j)
+        {
+          if (!seen[j])
+            {
+              *it = 0.F;
+              ++n_kappa_zero_unseen;
+            }
+          else if (c.kappa_kind == 2 && rng.range(0, 7) == 0)
+            *it = 0.F;
+        }
+    }
+}
+
+// user supplied prior weights (weights_kind >= 2), symmetric (w(d) = w(-d)): the property is about a penalty Phi whose gradient
+// this is; kind 4: all zero (a prior object that is present, has a non-zero factor and penalises nothing)
+static void
+make_weights(const Case& c, Built& b, vh::Rng& rng)
+{
+  const int mz = c.weights_kind == 3 ? 0 : -1;
+  b.weights = Array<3, float>(IndexRange3D(mz, -mz, -1, 1, -1, 1));
+  for (int dz = mz; dz <= -mz; ++dz)
+    for (int dy = -1; dy <= 1; ++dy)
+      for (int dx = -1; dx <= 1; ++dx)
+        b.weights[dz][dy][dx] = (dz == 0 && dy == 0 && dx == 0) ? 0.F : static_cast<float>(rng.range(0, 8)) / 8.F;
+  for (int dz = mz; dz <= -mz; ++dz)
+    for (int dy = -1; dy <= 1; ++dy)
+      for (int dx = -1; dx <= 1; ++dx)
+        b.weights[-dz][-dy][-dx] = b.weights[dz][dy][dx];
+  if (c.weights_kind == 4)
+    b.weights.fill(0.F);
+}
 
 static void
 build_data(const Case& c, Built& b)
@@ -450,25 +589,9 @@ build_data(const Case& c, Built& b)
     }
   b.init = flat(*t);
   if (c.kappa)
-    {
-      b.kappa.reset(b.img->get_empty_copy());
-      for (auto it = b.kappa->begin_all(); it != b.kappa->end_all(); ++it)
-        *it = static_cast<float>(rng.range(2, 24)) / 8.F;
-    }
+    make_kappa(c, b, rng);
   if (c.weights_kind >= 2)
-    {
-      const int mz = c.weights_kind == 2 ? -1 : 0;
-      b.weights = Array<3, float>(IndexRange3D(mz, -mz, -1, 1, -1, 1));
-      for (int dz = mz; dz <= -mz; ++dz)
-        for (int dy = -1; dy <= 1; ++dy)
-          for (int dx = -1; dx <= 1; ++dx)
-            b.weights[dz][dy][dx] = (dz == 0 && dy == 0 && dx == 0) ? 0.F : static_cast<float>(rng.range(0, 8)) / 8.F;
-      // keep the weights symmetric (w(d) = w(-d)): the property is about a penalty Phi whose gradient this is
-      for (int dz = mz; dz <= -mz; ++dz)
-        for (int dy = -1; dy <= 1; ++dy)
-          for (int dx = -1; dx <= 1; ++dx)
-            b.weights[-dz][-dy][-dx] = b.weights[dz][dy][dx];
-    }
+    make_weights(c, b, rng);
 }
 
 
@@ -493,6 +616,8 @@ struct Defs
   std::vector<RowD> rows;
   int nvg = 0, nsub = 1, nz = 0, ny = 0, nx = 0;
   bool have_prior = false, dep = false;
+  bool logcosh = false; // log-cosh prior: psi(d) = log cosh(s d) / s^2, psi'(d) = tanh(s d) / s, surrogate curvature psi'(d) / d
+  double lc_scalar = 1;
   double beta = 0;
   int wminz = 0, wmaxz = -1, wminy = 0, wmaxy = -1, wminx = 0, wmaxx = -1;
   std::vector<double> w, kappa;
@@ -547,7 +672,8 @@ struct Defs
                       const int k = ((z + dz) * ny + (y + dy)) * nx + (xx + dx);
                       const double ww = w[((dz - wminz) * (wmaxy - wminy + 1) + (dy - wminy)) * (wmaxx - wminx + 1) + (dx - wminx)];
                       const double kk = kappa.empty() ? 1. : kappa[j] * kappa[k];
-                      pg += ww * kk * (static_cast<double>(x[j]) - x[k]);
+                      const double diff = static_cast<double>(x[j]) - x[k];
+                      pg += ww * kk * (logcosh ? std::tanh(lc_scalar * diff) / lc_scalar : diff);
                       pm += std::fabs(ww * kk) * (std::fabs(x[j]) + std::fabs(x[k]));
                     }
               g[j] -= beta * pg / nsub;
@@ -593,7 +719,14 @@ struct Defs
                   {
                     const int k = ((z + dz) * ny + (y + dy)) * nx + (xx + dx);
                     const double ww = w[((dz - wminz) * (wmaxy - wminy + 1) + (dy - wminy)) * (wmaxx - wminx + 1) + (dx - wminx)];
-                    s += ww * (kappa.empty() ? 1. : kappa[j] * kappa[k]);
+                    double sur = 1.;
+                    if (logcosh)
+                      {
+                        // psi'(d)/d = tanh(s d)/(s d), -> 1 for d -> 0 (the library switches to 1 - (s d)^2/3 below |s d| = 0.01)
+                        const double xd = (static_cast<double>(x[j]) - x[k]) * lc_scalar;
+                        sur = std::fabs(xd) < 1e-4 ? 1. - xd * xd / 3. : std::tanh(xd) / xd;
+                      }
+                    s += ww * sur * (kappa.empty() ? 1. : kappa[j] * kappa[k]);
                   }
             c[j] = beta * s * (dep ? 1. + static_cast<double>(x[j]) * x[j] : 1.);
           }
@@ -606,6 +739,7 @@ struct Engine
   shared_ptr<ProjectorByBinPair> pp;
   shared_ptr<RecObj> obj;
   shared_ptr<RecPrior> qprior;
+  shared_ptr<RecLogcosh> lprior;
   shared_ptr<Probe> rec;
   // the objective function / quadratic prior actually in use (the recording subclasses above, or what the parser made)
   PoissonLogLikelihoodWithLinearModelForMeanAndProjData<T>* pl = nullptr;
@@ -686,7 +820,10 @@ write_par(const Case& c, const Built& b, int start, int ep, const std::string& p
     << "objective function type := PoissonLogLikelihoodWithLinearModelForMeanAndProjData\n"
     << "PoissonLogLikelihoodWithLinearModelForMeanAndProjData Parameters :=\n"
     << "  input file := " << dp << "_y.hs\n"
-    << "  zero end planes of segment 0 := " << (c.zero_ends ? 1 : 0) << "\n"
+    << "  zero end planes of segment 0 := " << (c.zero_ends ? 1 : 0) << "\n";
+  if (c.maxseg != -1 || c.par == 1)
+    f << "  maximum absolute segment number to process := " << c.maxseg << "\n";
+  f
     << "  projector pair type := Matrix\n"
     << "    Projector Pair Using Matrix Parameters :=\n"
     << "      Matrix type := Ray Tracing\n"
@@ -777,6 +914,19 @@ make_engine(const Case& c, const Built& b, int start_subiter, int ep, const std:
     e.obj->set_normalisation_sptr(shared_ptr<BinNormalisation>(new BinNormalisationFromProjData(b.normdata)));
   e.obj->set_zero_seg0_end_planes(c.zero_ends);
   e.obj->set_use_tofsens(c.tofsens);
+  if (c.maxseg != -1)
+    e.obj->set_max_segment_num_to_process(c.maxseg);
+  if (c.maxtof != -1)
+    e.obj->set_max_timing_pos_num_to_process(c.maxtof);
+  if (c.prior == 4)
+    {
+      e.lprior.reset(new RecLogcosh(c.weights_kind == 1, c.beta, c.lc_scalar));
+      if (c.kappa)
+        e.lprior->set_kappa_sptr(b.kappa);
+      if (c.weights_kind >= 2)
+        e.lprior->set_weights(b.weights);
+      e.obj->set_prior_sptr(e.lprior);
+    }
   if (c.prior == 1 || c.prior == 2)
     {
       e.qprior.reset(new RecPrior(c.weights_kind == 1, c.beta, c.prior == 2));
@@ -837,15 +987,17 @@ cfg_line(const Case& c, const Built& b, int nvg)
 {
   std::ostringstream s;
   const int nz = b.img->get_max_index() - b.img->get_min_index() + 1;
-  const char* pk = c.prior == 0 ? "none" : c.prior == 1 ? "quad" : c.prior == 2 ? "quaddep" : "notparabolic";
+  const char* pk = c.prior == 0 ? "none" : c.prior == 1 ? "quad" : c.prior == 2 ? "quaddep" : c.prior == 4 ? "logcosh" : "notparabolic";
   s << "cfg " << c.id << " dims " << nz << " " << c.nxy << " " << c.nxy << " ns " << c.nsub << " ss " << c.start_subset << " alpha "
     << vh::hex(c.alpha) << " gamma " << vh::hex(c.gamma) << " ub " << vh::hex(static_cast<float>(c.ub)) << " prior " << pk
     << " beta " << vh::hex(c.beta) << " kappa " << (c.kappa ? 1 : 0) << " add " << (c.additive ? 1 : 0) << " nvg " << nvg << " dones " << (c.denom_ones ? 1 : 0)
     << " norm " << (c.norm ? 1 : 0) << " tof " << b.pdi->get_num_tof_poss() << " tofsens " << (c.tofsens ? 1 : 0) << " zero " << (c.zero_ends ? 1 : 0)
     << " subsens " << (c.subset_sens ? 1 : 0) << " rand " << (c.randomise ? 1 : 0) << " filt " << c.filt << " " << c.filt_interval << " " << c.postfilt
+    << " segs " << c.maxseg << " " << b.pdi->get_max_segment_num() << " " << c.maxtof << " " << b.pdi->get_max_tof_pos_num()
     << " geom "
     << c.ndet << "," << c.nrings << "," << c.maxdelta << "," << c.ntang << "," << vh::hex(c.voxel) << "," << (c.restrict_fov ? 1 : 0) << ","
-    << c.sym90 << c.sym180 << c.symswapseg << c.symswaps << c.symz << "," << c.weights_kind << "," << c.data_seed;
+    << c.sym90 << c.sym180 << c.symswapseg << c.symswaps << c.symz << "," << c.weights_kind << "," << c.data_seed << "," << c.kappa_kind
+    << "," << vh::hex(c.lc_scalar);
   return s.str();
 }
 
@@ -880,7 +1032,8 @@ emit_step(const Case& c, const StepRec& r, const V& d0, int start, bool levelB, 
       g_ctx = save_ctx;
       return;
     }
-  if (levelB)
+  // (log-cosh prior: tanh is not in the model; gradient and curvature are checked by the oracle below and enter `step` as data)
+  if (levelB && c.prior != 4)
     {
       op("grad " + std::to_string(r.g_subset) + " | " + hv(gx), hv(g));
       if (r.have_c)
@@ -903,6 +1056,29 @@ emit_step(const Case& c, const StepRec& r, const V& d0, int start, bool levelB, 
         ofail("iterate outside [0, upper bound]: voxel " + std::to_string(j) + " value " + vh::hex(r.after[j]) + " ub " + vh::hex(ubf));
         break;
       }
+  // (1a) every number update_estimate obtained or produced is finite (a denominator that is not strictly positive shows as 0/0 = NaN,
+  //      which no comparison `v < 0 || v > ub` sees)
+  {
+    ++oracle_checks;
+    auto finite = [](const V& v) {
+      for (float x : v)
+        if (!std::isfinite(x))
+          return false;
+      return true;
+    };
+    if (!finite(r.after))
+      {
+        long cnt = 0;
+        for (float x : r.after)
+          if (!std::isfinite(x))
+            ++cnt;
+        ofail("iterate after update_estimate has " + std::to_string(cnt) + " voxels that are not finite (denominator not strictly positive?)");
+      }
+    else if (!finite(g) || (r.have_c && !finite(r.c)))
+      ofail("sub-gradient / surrogate curvature handed to update_estimate is not finite");
+    else if (fin && !finite(*fin))
+      ofail("iterate after end_of_iteration_processing is not finite");
+  }
   // (1b) ... and after the inter-iteration / post filter, when these map [0, ub] into itself (non-negative taps of sum <= 1;
   //      the generated taps are dyadic, so this holds in float arithmetic too).  A sharpening filter (negative side lobes) is applied
   //      AFTER the clamp and nothing clamps again: OSSPS then hands out iterates outside the bounds — the one listed class
@@ -975,6 +1151,24 @@ emit_step(const Case& c, const StepRec& r, const V& d0, int start, bool levelB, 
       }
   }
   // (3) D of this run
+  // (4b) "D strictly positive": a voxel whose gradient component is exactly 0 has the finite update zeta N 0 / D = 0, whatever D > 0
+  //      is: it keeps its value (clamped).  In the voxels that neither the data nor the penalty see (D0 = 0, kappa = 0 or weights 0)
+  //      this is what is left of the clause; the code gets there by threshold_min_to_small_positive_value, prior or no prior.
+  {
+    ++oracle_checks;
+    for (std::size_t j = 0; j < n; ++j)
+      if (g[j] == 0.F)
+        {
+          const float e = gx[j] > ubf ? ubf : (gx[j] < 0.F ? 0.F : gx[j]);
+          if (!(r.after[j] == e))
+            {
+              ofail("voxel " + std::to_string(j) + " has gradient component 0 but moved from " + vh::hex(gx[j]) + " to " + vh::hex(r.after[j])
+                    + " (denominator not strictly positive / not finite?)");
+              break;
+            }
+          hist["zero_gradient_voxels_checked"]++;
+        }
+  }
   const bool recompute = prior_nonzero && c.prior == 2;
   if (r.k == start || recompute)
     {
@@ -987,6 +1181,9 @@ emit_step(const Case& c, const StepRec& r, const V& d0, int start, bool levelB, 
         {
           rs.D = positive_D(d0, prior_nonzero ? &r.c : nullptr);
           rs.haveD = true;
+          for (double v : rs.D)
+            if (v == 0)
+              hist[prior_nonzero ? "voxels_with_D_exactly_0_before_thresholding_prior_present" : "voxels_with_D_exactly_0_before_thresholding_no_prior"]++;
         }
     }
   if (rs.haveD)
@@ -1002,7 +1199,7 @@ emit_step(const Case& c, const StepRec& r, const V& d0, int start, bool levelB, 
       for (std::size_t j = 0; j < n; ++j)
         {
           const double d = static_cast<double>(r.after[j]) - gx[j];
-          if (gx[j] >= 0.F && gx[j] <= ubf && d * g[j] < 0)
+          if (gx[j] >= 0.F && gx[j] <= ubf && !(d * g[j] >= 0))
             {
               ofail("voxel " + std::to_string(j) + " moved against its gradient component (D not positive?)");
               break;
@@ -1224,7 +1421,9 @@ describe_begin(const Case& c, const Built& b, bool build_q, Desc& D)
               for (auto& rv : rel)
                 {
                   vs_subset[std::make_pair(rv.view_num(), rv.segment_num())] = sub;
-                  ++count[sub];
+                  // (the objective function counts the view/segments of its own segment range)
+                  if (std::abs(rv.segment_num()) <= eff_maxseg(c, *b.pdi))
+                    ++count[sub];
                 }
             }
         }
@@ -1237,7 +1436,8 @@ describe_begin(const Case& c, const Built& b, bool build_q, Desc& D)
 // `weights`, `kappa`, `row`, `srow` lines + the property's definitions (Defs).  `prior_in_use`: the quadratic prior object of the
 // objective function after set_up, or null (then the harness' own is asked); `t`: an image of the grid.
 static void
-describe_rest(const Case& c, const Built& b, QuadraticPrior<float>* prior_in_use, const shared_ptr<T>& t, Desc& D)
+describe_rest(const Case& c, const Built& b, QuadraticPrior<float>* prior_in_use, const shared_ptr<T>& t, Desc& D,
+              LogcoshPrior<float>* lprior_in_use = nullptr)
 {
   Engine& q = D.q;
   std::map<std::pair<int, int>, int>& vs_subset = D.vs_subset;
@@ -1278,6 +1478,38 @@ describe_rest(const Case& c, const Built& b, QuadraticPrior<float>* prior_in_use
   defs.nsub = c.nsub;
   defs.nz = nz;
   defs.ny = defs.nx = c.nxy;
+  if (c.prior == 4)
+    {
+      // log-cosh prior: oracle only (weights as the prior object in use has them; default ones are computed lazily)
+      LogcoshPrior<float>* pr = lprior_in_use ? lprior_in_use : static_cast<LogcoshPrior<float>*>(q.lprior.get());
+      if (!lprior_in_use)
+        pr->set_up(t);
+      {
+        shared_ptr<T> tmp(t->get_empty_copy());
+        if (c.beta != 0)
+          pr->compute_gradient(*tmp, *t);
+      }
+      defs.have_prior = true;
+      defs.logcosh = true;
+      defs.lc_scalar = c.lc_scalar;
+      defs.beta = c.beta;
+      Array<3, float> w = pr->get_weights();
+      if (w.get_length() > 0)
+        {
+          defs.wminz = w.get_min_index();
+          defs.wmaxz = w.get_max_index();
+          defs.wminy = w[defs.wminz].get_min_index();
+          defs.wmaxy = w[defs.wminz].get_max_index();
+          defs.wminx = w[defs.wminz][defs.wminy].get_min_index();
+          defs.wmaxx = w[defs.wminz][defs.wminy].get_max_index();
+          for (auto it = w.begin_all(); it != w.end_all(); ++it)
+            defs.w.push_back(*it);
+        }
+      if (c.kappa)
+        for (auto it = b.kappa->begin_all_const(); it != b.kappa->end_all_const(); ++it)
+          defs.kappa.push_back(*it);
+      hist["logcosh_prior_cases"]++;
+    }
   if (c.prior == 1 || c.prior == 2)
     {
       QuadraticPrior<float>* pr = prior_in_use ? prior_in_use : static_cast<QuadraticPrior<float>*>(q.qprior.get());
@@ -1329,7 +1561,10 @@ describe_rest(const Case& c, const Built& b, QuadraticPrior<float>* prior_in_use
                 std::ostringstream l;
                 RowD rd;
                 rd.vg = vgid;
-                rd.subset = sub;
+                // (the textbook definitions: a bin outside the segment / TOF range to process is not part of the objective function)
+                rd.subset = processed(c, *b.pdi, s, tof) ? sub : -1;
+                if (!processed(c, *b.pdi, s, tof))
+                  hist["bins_outside_segment_or_TOF_range_to_process"]++;
                 rd.y = yv[ax][tp];
                 rd.a = av[ax][tp];
                 rd.n = nv[ax][tp];
@@ -1340,7 +1575,7 @@ describe_rest(const Case& c, const Built& b, QuadraticPrior<float>* prior_in_use
                 for (auto el = row.begin(); el != row.end(); ++el)
                   if (el->coord1() >= minz && el->coord1() <= b.img->get_max_index())
                     ++nin;
-                l << "row " << vgid << " " << sub << " " << vh::hex(yv[ax][tp]) << " " << vh::hex(av[ax][tp]) << " " << vh::hex(nv[ax][tp]) << " "
+                l << "row " << vgid << " " << sub << " " << s << " " << tof << " " << vh::hex(yv[ax][tp]) << " " << vh::hex(av[ax][tp]) << " " << vh::hex(nv[ax][tp]) << " "
                   << (rd.zeroed ? 1 : 0) << " " << nin;
                 for (auto el = row.begin(); el != row.end(); ++el)
                   {
@@ -1391,7 +1626,7 @@ describe_rest(const Case& c, const Built& b, QuadraticPrior<float>* prior_in_use
                   for (auto el = row.begin(); el != row.end(); ++el)
                     if (el->coord1() >= minz && el->coord1() <= b.img->get_max_index())
                       ++nin;
-                  l << "srow " << sub << " " << vh::hex(nf) << " " << (zeroed ? 1 : 0) << " " << nin;
+                  l << "srow " << sub << " " << s << " " << vh::hex(nf) << " " << (zeroed ? 1 : 0) << " " << nin;
                   for (auto el = row.begin(); el != row.end(); ++el)
                     {
                       if (el->coord1() < minz || el->coord1() > b.img->get_max_index())
@@ -1485,7 +1720,7 @@ run_case(Case c, bool levelB, bool restarts, bool expect_err)
     }
   else if (c.par == 1)
     hist["parameter_file_cases_explicit"]++;
-  describe_rest(c, b, ok ? e.qp : nullptr, t, D);
+  describe_rest(c, b, ok ? e.qp : nullptr, t, D, ok ? e.lprior.get() : nullptr);
   const Defs& defs = D.defs;
   const int nz = b.img->get_max_index() - b.img->get_min_index() + 1;
   if (!ok)
@@ -1835,6 +2070,14 @@ run_case(Case c, bool levelB, bool restarts, bool expect_err)
               g_ctx = save_ctx;
               continue;
             }
+          if (c.prior == 4)
+            {
+              // the restart clause is for no prior / a quadratic prior.  (LogcoshPrior declares its surrogate curvature independent
+              // of the image although it is not: the run keeps the curvature of its first image, a resumed run takes the saved one's.)
+              hist[equal ? "resume_equal_logcosh" : "resume_differs_logcosh_curvature_of_first_image_kept"]++;
+              g_ctx = save_ctx;
+              continue;
+            }
           ++oracle_checks;
           if (equal)
             ++n_restart_equal;
@@ -1932,7 +2175,8 @@ enum
   CH_PRIOROBJ = 64,
   CH_INIT = 128,
   CH_DMODE = 256,
-  CH_RESTART = 512
+  CH_RESTART = 512,
+  CH_SEGS = 1024 // `maximum absolute segment number to process` (set_max_segment_num_to_process)
 };
 
 static void
@@ -2002,24 +2246,9 @@ regen(const Case& c, Built& b, uint64_t seed, unsigned what)
     {
       b.kappa.reset();
       if (c.kappa)
-        {
-          b.kappa.reset(b.img->get_empty_copy());
-          for (auto it = b.kappa->begin_all(); it != b.kappa->end_all(); ++it)
-            *it = static_cast<float>(rng.range(2, 24)) / 8.F;
-        }
+        make_kappa(c, b, rng);
       if (c.weights_kind >= 2)
-        {
-          const int mz = c.weights_kind == 2 ? -1 : 0;
-          b.weights = Array<3, float>(IndexRange3D(mz, -mz, -1, 1, -1, 1));
-          for (int dz = mz; dz <= -mz; ++dz)
-            for (int dy = -1; dy <= 1; ++dy)
-              for (int dx = -1; dx <= 1; ++dx)
-                b.weights[dz][dy][dx] = (dz == 0 && dy == 0 && dx == 0) ? 0.F : static_cast<float>(rng.range(0, 8)) / 8.F;
-          for (int dz = mz; dz <= -mz; ++dz)
-            for (int dy = -1; dy <= 1; ++dy)
-              for (int dx = -1; dx <= 1; ++dx)
-                b.weights[-dz][-dy][-dx] = b.weights[dz][dy][dx];
-        }
+        make_weights(c, b, rng);
     }
 }
 
@@ -2155,6 +2384,14 @@ run_history(Case c0, int kind, int nruns, const std::vector<std::pair<unsigned, 
             changed &= ~static_cast<unsigned>(CH_BETA);
           if (changed == 0)
             changed = CH_DATA;
+          // the segment range of the objective function: restricted <-> all segments of the data (-1), through the setter
+          if (b.pdi->get_max_segment_num() >= 1 && (scripted ? ((*script)[r - 1].first & CH_SEGS) != 0 : hr.range(0, 2) == 0))
+            {
+              changed |= CH_SEGS;
+              c.maxseg = c.maxseg == -1 ? hr.range(0, b.pdi->get_max_segment_num() - 1) : (hr.coin() ? -1 : b.pdi->get_max_segment_num());
+            }
+          else
+            changed &= ~static_cast<unsigned>(CH_SEGS);
           if (changed & CH_ADD)
             c.additive = c.additive ? hr.coin() : true;
           if (changed & CH_NORM)
@@ -2181,7 +2418,7 @@ run_history(Case c0, int kind, int nruns, const std::vector<std::pair<unsigned, 
               c.weights_kind = c.prior ? hr.range(0, 3) : 0;
             }
           regen(c, b, hr.next(), changed & (CH_DATA | CH_ADD | CH_NORM | CH_INIT | CH_PRIOROBJ));
-          if (changed & (CH_DATA | CH_NORM))
+          if (changed & (CH_DATA | CH_NORM | CH_SEGS))
             valid_d0file.clear();
           if (changed & CH_DMODE)
             {
@@ -2266,6 +2503,8 @@ run_history(Case c0, int kind, int nruns, const std::vector<std::pair<unsigned, 
                   e.rec->set_num_subsets(c.nsub);
                   e.rec->set_start_subset_num(c.start_subset);
                 }
+              if (changed & CH_SEGS)
+                e.pl->set_max_segment_num_to_process(c.maxseg);
               if (changed & CH_RELAX)
                 e.rec->configure(c.alpha, c.gamma, c.ub, c.ep);
               if (changed & CH_PRIOROBJ)
@@ -2433,9 +2672,9 @@ run_history(Case c0, int kind, int nruns, const std::vector<std::pair<unsigned, 
       hist["history_runs"]++;
       {
         static const char* const names[] = { "data", "additive", "normalisation", "subsets", "relaxation", "prior_factor", "prior_object",
-                                             "start_image", "denominator_mode", "restart_from_saved_iterate" };
+                                             "start_image", "denominator_mode", "restart_from_saved_iterate", "segment_range" };
         int i = 0;
-        for (unsigned bit = 1; bit <= CH_RESTART; bit <<= 1, ++i)
+        for (unsigned bit = 1; bit <= CH_SEGS; bit <<= 1, ++i)
           if (changed & bit)
             hist[std::string("history_change_") + names[i]]++;
       }
@@ -2594,6 +2833,8 @@ main(int argc, char** argv)
       g.ndet = 8 + 2 * rng.range(0, 2);
       g.nrings = rng.range(2, 3);
       g.maxdelta = rng.range(0, g.nrings - 1);
+      if (gidx <= 2)
+        g.maxdelta = std::max(1, g.maxdelta); // always geometries with more than one segment (restricted segment ranges)
       g.ntang = std::max(3, g.ndet / 2 - 1 - 2 * rng.range(0, 1));
       g.nxy = rng.range(5, 7);
       g.restrict_fov = rng.range(0, 3) != 0;
@@ -2630,7 +2871,7 @@ main(int argc, char** argv)
         {
           if (!thorough && ns > 1 && ns < V_ && V_ % ns != 0 && rng.range(0, 1))
             continue;
-          const int nvariants = thorough ? 3 : (ns <= 2 ? 2 : 1);
+          const int nvariants = (thorough || (gidx == 0 && ns == 1)) ? 3 : (ns <= 2 ? 2 : 1);
           for (int var = 0; var < nvariants; ++var)
             {
               Case c = g;
@@ -2647,13 +2888,22 @@ main(int argc, char** argv)
                 c.gamma = 0.5F;
               c.ub = ubs[rng.range(0, 4)];
               c.ep = rng.range(0, 3) == 0;
-              const int pk = rng.range(0, 7);
-              c.prior = pk <= 1 ? 0 : (pk <= 5 ? 1 : 2);
+              const int pk = rng.range(0, 8);
+              c.prior = pk <= 1 ? 0 : (pk <= 5 ? 1 : (pk == 6 ? 2 : (pk == 7 ? 4 : 1)));
               c.beta = c.prior ? static_cast<float>(rng.range(1, 40)) / 16.F : 0.F;
               if (c.prior == 1 && rng.range(0, 9) == 0)
                 c.beta = 0.F; // a prior object with penalisation factor 0: prior_is_zero()
               c.kappa = c.prior && rng.coin();
+              c.kappa_kind = c.kappa ? rng.range(0, 2) : 0;
               c.weights_kind = c.prior ? rng.range(0, 3) : 0;
+              if (c.prior && rng.range(0, 11) == 0)
+                c.weights_kind = 4;
+              c.lc_scalar = c.prior == 4 ? static_cast<float>(rng.range(1, 12)) / 4.F : 1.F;
+              // objective function restricted to fewer segments / TOF bins than the data have
+              if (c.maxdelta >= 1 && rng.range(0, 2) == 0)
+                c.maxseg = rng.range(0, c.maxdelta - (rng.range(0, 3) == 0 ? 0 : 1));
+              if (c.tofbins > 0 && rng.range(0, 2) == 0)
+                c.maxtof = rng.range(0, (c.tofbins / c.tofmash) / 2 - (rng.range(0, 3) == 0 ? 0 : 1));
               c.additive = rng.coin();
               c.denom_ones = rng.range(0, 7) == 0 || (gidx == 1 && ns == 2 && var == 0);
               // objective function: normalisation, zeroed end planes, subset sensitivities (TOF is a property of the geometry)
@@ -2683,6 +2933,34 @@ main(int argc, char** argv)
                 c.tofsens = true, c.zero_ends = true;
               if (gidx == 3 && ns == 1 && var == 0)
                 c.filt = 2, c.filt_interval = 2, c.postfilt = 0;
+              // -- restricted segment range: without prior (D0 / gradient / sensitivity alone) and with a quadratic prior
+              if (gidx == 0 && ns == 2 && var == 0)
+                c.maxseg = c.maxdelta - 1, c.prior = 0, c.beta = 0.F, c.kappa = false, c.weights_kind = 0, c.denom_ones = false, c.subset_sens = true;
+              if (gidx == 1 && ns == 2 && var == 1)
+                c.maxseg = 0, c.prior = 1, c.beta = 1.5F, c.denom_ones = false, c.subset_sens = true;
+              // -- restricted TOF range: with `use time-of-flight sensitivities` off (the code switches it on) and on
+              if (gidx == 2 && ns == 2 && var == 0)
+                c.maxtof = 0, c.tofsens = false, c.denom_ones = false, c.subset_sens = true;
+              if (gidx == 2 && ns == 2 && var == 1)
+                c.maxtof = (c.tofbins / c.tofmash) / 2 - 1, c.maxseg = 0, c.tofsens = true, c.denom_ones = false, c.subset_sens = true;
+              // -- voxels that neither the data nor the penalty see (geometry 0 has corner voxels outside the FOV): D = 0 before it
+              //    is made positive, with a prior present
+              if (gidx == 0 && ns == 1 && var == 1)
+                {
+                  // quadratic prior, default 3D neighbourhood, kappa differs from voxel to voxel (and plane to plane), 0 outside the FOV
+                  c.prior = 1, c.beta = 1.25F, c.kappa = true, c.kappa_kind = 1, c.weights_kind = 0, c.denom_ones = false;
+                  c.maxseg = 0;
+                }
+              if (gidx == 0 && ns == 1 && var == 2)
+                // a prior that is present (factor != 0) and penalises nothing: all weights 0
+                c.prior = 1, c.beta = 2.F, c.kappa = false, c.kappa_kind = 0, c.weights_kind = 4, c.denom_ones = false, c.maxseg = -1;
+              if (gidx == 0 && ns == 2 && var == 1)
+                // log-cosh prior, kappa 0 outside the FOV (and in a few other voxels)
+                c.prior = 4, c.beta = 1.F, c.lc_scalar = 2.F, c.kappa = true, c.kappa_kind = 2, c.weights_kind = 0, c.denom_ones = false;
+              if (gidx == 0 && ns == V_ && var == 0)
+                // user weights combined with kappa (zeros outside the FOV), image dependent curvature (recomputed every sub-iteration)
+                c.prior = (c.id % 2) ? 1 : 2, c.beta = 0.75F, c.kappa = true, c.kappa_kind = 1, c.weights_kind = 2, c.denom_ones = false,
+                c.subset_sens = true;
               c.data_seed = rng.next();
               c.prefix = dir + "/c" + std::to_string(c.id);
               const bool levelB = true;
@@ -2696,7 +2974,15 @@ main(int argc, char** argv)
               hist["ns=" + std::to_string(ns)]++;
               if (c.denom_ones)
                 hist["denominator_of_ones"]++;
-              hist[std::string("prior=") + (c.prior == 0 ? "none" : c.prior == 1 ? (c.beta == 0 ? "quad-beta0" : "quad") : "quaddep")]++;
+              hist[std::string("prior=") + (c.prior == 0 ? "none" : c.prior == 1 ? (c.beta == 0 ? "quad-beta0" : "quad") : c.prior == 4 ? "logcosh" : "quaddep")]++;
+              if (c.maxseg >= 0 && c.maxseg < c.maxdelta)
+                hist["cases_with_restricted_segment_range"]++;
+              if (c.maxtof >= 0 && c.tofbins > 0 && c.maxtof < (c.tofbins / c.tofmash) / 2)
+                hist["cases_with_restricted_TOF_range"]++;
+              if (c.kappa && c.kappa_kind >= 1)
+                hist["cases_with_kappa_zero_in_unseen_voxels"]++;
+              if (c.prior && c.weights_kind == 4)
+                hist["cases_with_all_prior_weights_zero"]++;
             }
         }
     }
@@ -2723,7 +3009,10 @@ main(int argc, char** argv)
       c.prior = pk <= 1 ? 0 : (pk <= 6 ? 1 : 2);
       c.beta = c.prior ? static_cast<float>(hrng.range(1, 40)) / 16.F : 0.F;
       c.kappa = c.prior && hrng.coin();
+      c.kappa_kind = c.kappa ? hrng.range(0, 2) : 0;
       c.weights_kind = c.prior ? hrng.range(0, 3) : 0;
+      c.maxseg = (c.maxdelta >= 1 && hrng.range(0, 2) == 0) ? hrng.range(0, c.maxdelta - 1) : -1;
+      c.maxtof = (c.tofbins > 0 && hrng.range(0, 2) == 0) ? hrng.range(0, (c.tofbins / c.tofmash) / 2 - 1) : -1;
       c.additive = hrng.coin();
       c.denom_ones = hrng.range(0, 9) == 0;
       c.norm = hrng.coin();
@@ -2740,6 +3029,7 @@ main(int argc, char** argv)
           c.tofbins = 0;
           c.tofmash = 1;
           c.tofsens = false;
+          c.maxtof = -1;
           if (c.prior == 2)
             c.prior = 1;
           if (c.weights_kind >= 2)
@@ -2764,7 +3054,13 @@ main(int argc, char** argv)
       c = config(geoms[1 % nh], false);
       c.prior = 1, c.beta = 0.5F, c.denom_ones = false;
       run_history(c, 1, 3, &s2);
-      hist["scripted_histories"] += 2;
+      // all segments -> restricted range (the denominator must be recomputed for the restricted objective function, the file of the
+      // first set_up is no longer its denominator) -> another range with new data
+      const std::vector<std::pair<unsigned, int>> s3 = { { CH_SEGS, 0 }, { CH_SEGS | CH_DATA, 0 } };
+      c = config(geoms[0], false);
+      c.prior = 1, c.beta = 1.F, c.denom_ones = false, c.maxseg = -1;
+      run_history(c, 1, 3, &s3);
+      hist["scripted_histories"] += 3;
     }
     for (int gi = 0; gi < nh; ++gi)
      for (int rep = 0; rep < 2; ++rep)
@@ -2813,13 +3109,15 @@ main(int argc, char** argv)
             c.start_subset = 0;
             c.denom_ones = false;
             if (pk == 0)
-              c.prior = 0, c.beta = 0.F, c.kappa = false, c.nsub = 2, c.nsubiter = 4, c.subset_sens = true;
+              c.prior = 0, c.beta = 0.F, c.kappa = false, c.nsub = 2, c.nsubiter = 4, c.subset_sens = true,
+              c.maxseg = 0; // `maximum absolute segment number to process := 0` on data with more segments
           }
         else
           {
             c.write_update = true;
             if (pk == 1)
-              c.prior = 1, c.beta = 1.25F, c.denom_ones = false;
+              // quadratic prior with a kappa file that has zeros, restricted segment range
+              c.prior = 1, c.beta = 1.25F, c.denom_ones = false, c.kappa = true, c.kappa_kind = 2, c.maxseg = c.maxdelta - 1;
           }
         while (pk < 2 && c.id % 3 != 0) // (the second reconstruct() without set_up is run for id % 3 == 0)
           c.id = ++id, c.prefix = dir + "/c" + std::to_string(c.id);
@@ -2846,7 +3144,7 @@ main(int argc, char** argv)
   }
 
   // ---- malformed stream: configurations set_up must refuse
-  for (int m = 0; m < 4; ++m)
+  for (int m = 0; m < 6; ++m)
     {
       Case c;
       c.id = ++id;
@@ -2866,10 +3164,17 @@ main(int argc, char** argv)
         c.alpha = -1.F;
       else if (m == 2)
         c.gamma = -0.5F;
-      else
+      else if (m == 3)
         {
           c.prior = 3;
           c.beta = 1.F;
+        }
+      else if (m == 4)
+        c.maxseg = c.maxdelta + 1; // more segments than the data have
+      else
+        {
+          c.tofbins = 5;
+          c.maxtof = 3; // more TOF bins than the data have
         }
       run_case(c, false, false, true);
     }
